@@ -143,7 +143,7 @@ def run(tier, t0):
         "samples": [{"pred": cases[o["case"]]["pred"], "cols": cases[o["case"]]["cols"], "narrowed": o["narrowed"]} for o in obs[:: max(1, len(obs) // 3)]][:3],
         "evaluations": sum(len(o["rows"]) for o in obs),
         "distinct_nontrivial": sum(1 for rec in recs if any(x["pred"] == "true" for x in rec["rows"]) and any(x["pred"] != "true" for x in rec["rows"])),
-        "rule": "predicates of spec/ExprCases.tla (comparisons of a column with a literal in both operand orders and with another column, is_null, an arithmetic term the narrowing does not understand; NOT, AND, OR of two atoms) x pairs of column types (intervals, value sets, optional, int/float) enumerated by TLC (quick: a seeded 1/8 sample), under 5 order embeddings, every row of universe points (capped at 64); non-trivial = the predicate is true on some rows and not on others",
+        "rule": "predicates of spec/ExprCases.tla (comparisons of a column with a literal in both operand orders and with another column, is_null, an arithmetic term the narrowing does not understand; NOT, AND, OR of two atoms; NOT of AND / OR of two atoms, double negation, a negated compound under AND) x pairs of column types (intervals, value sets, optional, int/float) enumerated by TLC (quick: a seeded 1/8 sample), under 5 order embeddings, every row of universe points (capped at 64); non-trivial = the predicate is true on some rows and not on others",
         "exhaustive": tier == "thorough", "cases": len(cases), "embeddings": 5,
         "rows_where_predicate_true": sum(1 for rec in recs for x in rec["rows"] if x["pred"] == "true"),
         "on_clause": join_cov,
